@@ -202,6 +202,17 @@ CLAIMED = {
         "Results, not object identity, are compared (Schur-basis dependent matrices excluded); get_variant views are only read; sequences <= 12 steps.",
         "DESIGN.md section 3, C20",
     ),
+    "C04": (
+        "Hypothesis-generated structured models rendered under independently drawn syntactic recipes (aliases, comments, shift styles, !for/!if/substitutions/lists/<...>, pseudofunction spellings); own macro expansion and evaluator; metamorphic recipe pairs",
+        "A structured model (names by kind, descriptions, log status, dynamic and !! steady equations as ASTs with pseudofunction nodes) is "
+        "rendered twice with independently drawn recipes using every syntactic alternative the parser code accepts; the model object must expose "
+        "exactly the declared names/kinds/descriptions/log status (plus the documented ant_/std_ companions), every dynamic and steady equation "
+        "must evaluate on random data to the harness evaluator's rhs-lhs (pseudofunctions by definition, shock + anticipated shock), two recipes "
+        "must give the same model, and preparser.from_string on macro-free text must be the identity; constructs of uncertain status form a "
+        "separate class whose only allowed outcomes are correct or rejected (5 s CPU limit).",
+        "The grammar is taken from the parser code and repository models; constructs outside it (lagged shocks, spaces before braces, nested substitutions) are not generated.",
+        "DESIGN.md section 3, C04",
+    ),
 }
 
 NOT_BUILT_REASON = "check not built yet in this round (design in DESIGN.md section 3); not claimed until it is quiet on the unchanged tree and kills its mutants"
